@@ -48,11 +48,13 @@ TRIVIA = {
     # alternatives that are prefixes of one another, over letters the start rules use too (the optimizer fuses
     # a silent choice-bodied WHITESPACE into one regex: ordered choice must survive that)
     "ws_overlap": (("WHITESPACE", "_", ("alt", (S("b"), S("ba")))),),
+    # a trivia rule whose body produces a pair and can then still fail (sp matches, "." does not)
+    "ws_pairs": (("sp", "$", S(" ")), ("WHITESPACE", "_", ("seq", (R("sp"), S(".")))),),
     # a COMMENT whose body holds a predicate that the skip pass cannot turn into a substring search (EOI in the choice)
     "cm_pred": (("COMMENT", "_", ("seq", (S("#"), ("star", ("grp", ("seq", (("not", ("grp", ("alt", (S("!"), R("EOI"))))), R("ANY")))))))),),
 }
 TRIVIA_SIGMA = {
-    "none": "", "ws": " ", "ws_loud": " ", "cm2": "#!", "both": " #!", "ws_choice": " \t", "cm1": "#", "both_loud": " #", "ws_overlap": "", "cm_pred": "#!",
+    "none": "", "ws": " ", "ws_loud": " ", "cm2": "#!", "both": " #!", "ws_choice": " \t", "cm1": "#", "both_loud": " #", "ws_overlap": "", "cm_pred": "#!", "ws_pairs": " .",
 }
 
 
@@ -130,9 +132,9 @@ def batch_specs(starts, base_rules, ins, kmode, family, batch=40):
 
 C01_BOUNDS = {
     # top: list of (n, modifiers, trivia configs); ctx: (hole size, trivia configs); L: max number of inputs
-    "quick": {"top": [(2, MODS, ("none", "ws", "both")), (2, ("", "@"), ("ws_loud", "cm2", "ws_choice")), (3, ("", "@"), ("none", "ws"))],
+    "quick": {"top": [(2, MODS, ("none", "ws", "both")), (2, ("", "@"), ("ws_loud", "cm2", "ws_choice", "ws_pairs")), (3, ("", "@"), ("none", "ws"))],
               "ctx": [(2, ("none", "ws"))], "max_inputs": 90},
-    "thorough": {"top": [(3, MODS, ("none", "ws", "ws_loud", "cm2", "both", "ws_choice", "cm1", "cm_pred")), (4, ("",), ("none", "ws"))],
+    "thorough": {"top": [(3, MODS, ("none", "ws", "ws_loud", "cm2", "both", "ws_choice", "cm1", "cm_pred", "ws_pairs")), (4, ("",), ("none", "ws"))],
                  "ctx": [(3, ("none", "ws")), (2, ("cm2", "both", "ws_loud", "ws_choice"))], "max_inputs": 160},
 }
 
